@@ -560,6 +560,9 @@ package service
 //@   trace[C03,trial-decryption-into-scratch] each service.findAccessKeyUDP satisfies sameslice($arg1, textBuf) && $arg2.$arr == cipherBuf.$arr && len($arg2) == clientProxyBytes && $arg3 == h.ciphers
 //@   trace[C04,lookup-by-client-address] each service.(*natmap).Get satisfies $arg1 == pure("net.Addr.String", clientAddr)
 //@   trace[C04,one-lookup] atmost 1 service.(*natmap).Get
+//@   trace[C04,only-the-reclaimer-removes-associations] never service.(*natmap).del
+//@   trace[C04,table-written-only-through-add] never service.(*natmap).set
+//@   trace[C04,unauthenticated-datagram-leaves-table-alone] never service.(*natmap).* when result != nil && result.Status == "ERR_CIPHER" && evcount("service.(*natmap).Get") == 0
 //@   trace[C04,association-reused] each service.(*natmap).Get satisfies $res0 != nil ==> targetConn == $res0 && evcount("service.(*natmap).Add") == 0
 //@   trace[C05,one-validation-per-datagram] atmost 1 service.(*packetHandler).validatePacket
 //@   trace[C05,sent-to-validated-address] each service.(*natconn).WriteTo satisfies evres("service.(*packetHandler).validatePacket", 2) == nil && $arg2 != nil && as($arg2, "*net.UDPAddr") == evres("service.(*packetHandler).validatePacket", 1)
